@@ -38,6 +38,18 @@ CHECKS = {
         tech="property-based testing: reference-model oracle per scope + metamorphic (delete unrelated scopes)",
         ref="DESIGN.md section 3 / C07",
     ),
+    "C10": dict(
+        text="Generated-input search over pass HISTORIES: a drawn sequence (1-8 steps, repetitions) of expand_subcircuits / fill_in_let(ov) / expand_macros / fill_in_map is applied to the parsed circuit; after every step the independently extracted meaning must equal the reference meaning (so all orders agree), re-applying the pass must give an == circuit with identical text, generate->parse must succeed with the same meaning, usepulses must survive; every parser flag combination must equal the explicit composition.",
+        note=TRUST + "'applicable' for fill_in_map follows its docstring/use in parse_jaqal_string (after let substitution when overrides are given, after macro expansion when macros exist): otherwise the step is skipped; histories are drawn as lists (equivalent to a rule-based state machine whose rules are the four passes; replayable as JSON).",
+        tech="property-based testing over operation sequences (model-based: reference meaning as the state invariant) + idempotence/round-trip metamorphic relations",
+        ref="DESIGN.md section 3 / C10",
+    ),
+    "C20": dict(
+        text="Generated-input search over PAIRS: every program paired with a relayout/respelling (must be ==) and with single-site model-level mutants (gate name, argument, arity, qubit index, loop/subcircuit count, block kind, alias bound, let value, register size, usepulses module, parameter use): unequal whenever the reference semantics separates them, symmetric always, == own re-parse, and == implies equal extracted meaning and declarations.",
+        note=TRUST + "mutants the reference cannot separate (or that are invalid / rejected) are discarded and counted; anonymous gates.",
+        tech="property-based testing: mutation-based discrimination oracle + equivalence laws",
+        ref="DESIGN.md section 3 / C20",
+    ),
 }
 
 ORDER = [f"C{i:02d}" for i in range(1, 21)]
